@@ -45,6 +45,8 @@ pub enum Stmt {
     Provide(u8, Ex),
     Use(u8),
     RunIn(usize, Vec<Stmt>),
+    /// top level only: `RootHandle::dispose()` (= `Root::reinit`), the program goes on in the new root
+    Reinit,
 }
 
 fn show_ex(e: &Ex) -> String {
@@ -81,6 +83,7 @@ pub fn show(s: &Stmt) -> String {
         Stmt::Provide(t, e) => format!("(provide {t} {})", show_ex(e)),
         Stmt::Use(t) => format!("(use {t})"),
         Stmt::RunIn(h, b) => format!("(runin {h}{})", sp(b)),
+        Stmt::Reinit => "(reinit)".into(),
     }
 }
 
@@ -165,6 +168,7 @@ fn sx_stmt(s: &Sx) -> Option<Stmt> {
         "provide" => Stmt::Provide(sx_num(r.first()?)?, sx_ex(r.get(1)?)?),
         "use" => Stmt::Use(sx_num(r.first()?)?),
         "runin" => Stmt::RunIn(sx_num(r.first()?)?, sx_body(&r[1..])?),
+        "reinit" => Stmt::Reinit,
         _ => return None,
     })
 }
@@ -248,6 +252,8 @@ struct World {
     trace: RefCell<Vec<String>>,
     next_tag: Cell<usize>,
     api_counter: Cell<usize>,
+    /// the handle number of the root node of the current generation (changes with `(reinit)`)
+    root_seq: Cell<usize>,
     sh: RefCell<Shadow>,
 }
 
@@ -260,6 +266,7 @@ impl World {
             trace: RefCell::new(vec![]),
             next_tag: Cell::new(0),
             api_counter: Cell::new(0),
+            root_seq: Cell::new(0),
             sh: RefCell::new(Shadow::default()),
         };
         {
@@ -632,6 +639,7 @@ fn exec_stmt(w: &Rc<World>, env: &mut Vec<H>, run: &mut Run, s: &Stmt) {
                 w.trace.borrow_mut().push(format!("c{tag}({})", run.obs.join(",")));
             });
         }
+        Stmt::Reinit => panic!("harness: (reinit) is a top-level operation"),
         Stmt::Dispose(h) => {
             let (hnd, seq) = node_handle(w, env, *h);
             w.sh.borrow_mut().kill(seq);
@@ -1053,6 +1061,29 @@ fn judge(w: &World, k: usize, op: &Stmt, snaps: &[Option<(usize, usize, usize, b
     fails
 }
 
+/// `(reinit)`: `RootHandle::dispose()` — the root node and everything it owns is destroyed (cleanups run), whatever
+/// is left in the arena is dropped, and a fresh root node becomes the current scope
+fn do_reinit(w: &Rc<World>, root: RootHandle) {
+    let old = w.root_seq.get();
+    w.sh.borrow_mut().kill(old);
+    root.dispose();
+    {
+        let mut sh = w.sh.borrow_mut();
+        for m in 0..sh.killed.len() {
+            sh.killed[m] = true;
+            sh.provided[m].clear();
+        }
+        sh.frames.clear();
+    }
+    // `reinit` leaves no global root behind
+    root.run_in(|| {
+        let seq = w.alloc(Kind::Scope);
+        w.handles.borrow_mut()[seq] = Some(use_global_scope());
+        w.root_seq.set(seq);
+        w.sh.borrow_mut().frames.push(Frame { current: seq, tracker: None });
+    });
+}
+
 pub fn run_case(ops: &[Stmt]) -> CaseResult {
     let root = fresh_root();
     let mut out: Vec<String> = vec![];
@@ -1088,8 +1119,9 @@ pub fn run_case(ops: &[Stmt]) -> CaseResult {
                 sh.tracked.clone()
             };
             let mut run = Run { acc: 0, obs: vec![], reads: vec![] };
-            let r = catch(|| exec_stmt(&w, &mut env, &mut run, op));
-            match r {
+            let r = root.run_in(|| if matches!(op, Stmt::Reinit) { catch(|| do_reinit(&w, root)) } else { catch(|| exec_stmt(&w, &mut env, &mut run, op)) });
+            // (a `reinit` leaves no global root behind: what follows runs inside `run_in` again)
+            let stop = root.run_in(|| -> bool { match r {
                 Err(m) => {
                     let cls = panic_class(&m);
                     out.push(format!("{k}:panic={cls}"));
@@ -1105,7 +1137,7 @@ pub fn run_case(ops: &[Stmt]) -> CaseResult {
                     } else {
                         flags.insert("documented-panic");
                     }
-                    break;
+                    return true;
                 }
                 Ok(()) => {
                     let (state, snaps) = observe(&w);
@@ -1133,6 +1165,8 @@ pub fn run_case(ops: &[Stmt]) -> CaseResult {
                     }
                 }
             }
+            false });
+            if stop { break; }
         }
     });
     let verdict = if verdicts.is_empty() { None } else { Some(verdicts.join(" ;; ")) };
@@ -1464,6 +1498,46 @@ impl<'a> Gen<'a> {
     }
 }
 
+/// does the top-level statement add a handle to the top-level environment?
+fn creates_handle(s: &Stmt) -> bool {
+    matches!(s, Stmt::Signal(_) | Stmt::Memo(_) | Stmt::Selector(..) | Stmt::Effect(_) | Stmt::Scope(_))
+}
+/// the same statement in an environment that has `d` more handles in front (every lexical environment of a
+/// program starts with the top-level handles created before it)
+fn shift(s: &Stmt, d: usize) -> Stmt {
+    let b = |b: &Vec<Stmt>| b.iter().map(|x| shift(x, d)).collect::<Vec<Stmt>>();
+    match s {
+        Stmt::Read(h) => Stmt::Read(h + d),
+        Stmt::ReadU(h) => Stmt::ReadU(h + d),
+        Stmt::Track(h) => Stmt::Track(h + d),
+        Stmt::IfPos(h, t, e) => Stmt::IfPos(h + d, b(t), b(e)),
+        Stmt::Untrack(x) => Stmt::Untrack(b(x)),
+        Stmt::Component(x) => Stmt::Component(b(x)),
+        Stmt::On(ds, x) => Stmt::On(ds.iter().map(|h| h + d).collect(), b(x)),
+        Stmt::Memo(x) => Stmt::Memo(b(x)),
+        Stmt::Selector(k, x) => Stmt::Selector(*k, b(x)),
+        Stmt::Effect(x) => Stmt::Effect(b(x)),
+        Stmt::Scope(x) => Stmt::Scope(b(x)),
+        Stmt::Set(h, e) => Stmt::Set(h + d, *e),
+        Stmt::SetSilent(h, e) => Stmt::SetSilent(h + d, *e),
+        Stmt::Cleanup(x) => Stmt::Cleanup(b(x)),
+        Stmt::Dispose(h) => Stmt::Dispose(h + d),
+        Stmt::Batch(x) => Stmt::Batch(b(x)),
+        Stmt::RunIn(h, x) => Stmt::RunIn(h + d, b(x)),
+        other => other.clone(),
+    }
+}
+/// two programs on one root with `RootHandle::dispose()` in between (what every server render does with the
+/// thread's root): the second generation behaves like a first one, and nothing of the first survives
+fn with_reinit(a: Vec<Stmt>, b: Vec<Stmt>, tail_old: Option<Stmt>) -> Vec<Stmt> {
+    let d = a.iter().filter(|s| creates_handle(s)).count();
+    let mut ops = a;
+    ops.push(Stmt::Reinit);
+    ops.extend(b.iter().map(|s| shift(s, d)));
+    ops.extend(tail_old);
+    ops
+}
+
 fn s_set(h: usize, v: i64) -> Stmt {
     Stmt::Set(h, Ex::C(v))
 }
@@ -1649,6 +1723,30 @@ fn templates() -> Vec<Vec<Stmt>> {
         p.extend([s_set(0, 1), Dispose(2), s_set(1, 0), s_set(0, 2)]);
         t.push(p);
     }
+    // RootHandle::dispose() in the middle (Root::reinit): cleanups run once, everything of the first generation is
+    // gone (orphans created by cleanups during the teardown included), the second generation starts from scratch
+    {
+        let first: Vec<Vec<Stmt>> = vec![
+            vec![Signal(1), Memo(vec![Read(0)]), Effect(vec![Read(1), Cleanup(vec![Signal(9)])]), s_set(0, 2)],
+            vec![Signal(1), Provide(0, Ex::C(4)), Scope(vec![Provide(1, Ex::C(5)), Effect(vec![Read(0), Use(0), Use(1)]), Cleanup(vec![Use(1)])]), s_set(0, 3)],
+            // cleanups that write a signal which is disposed later in the same teardown (owner order) and one that
+            // creates an effect while everything goes away
+            vec![Scope(vec![Effect(vec![Cleanup(vec![Effect(vec![Signal(0)])])])]), Signal(0), Effect(vec![Read(1)]), Scope(vec![Cleanup(vec![Set(1, Ex::C(7))])]), s_set(1, 1)],
+            // a batch left nothing pending; a selector; an effect that disposes its own scope
+            vec![Signal(0), Selector(EqK::Parity, vec![Read(0)]), Effect(vec![Read(1)]), Batch(vec![s_set(0, 1), s_set(0, 3)]), Scope(vec![Effect(vec![Read(0), DisposeCur])]), s_set(0, 4)],
+        ];
+        let second: Vec<Vec<Stmt>> = vec![
+            vec![Signal(5), Memo(vec![Read(0)]), Effect(vec![Read(1)]), s_set(0, 6), Use(0), Use(1)],
+            vec![Provide(0, Ex::C(1)), Signal(0), Scope(vec![Effect(vec![Read(0), Use(0)])]), s_set(0, 1), Reinit, Signal(3), Use(0)],
+        ];
+        for a in &first {
+            for b in &second {
+                t.push(with_reinit(a.clone(), b.clone(), None));
+                t.push(with_reinit(a.clone(), b.clone(), Some(ReadU(0))));
+            }
+            t.push(with_reinit(a.clone(), vec![], Some(Dispose(0))));
+        }
+    }
     t
 }
 
@@ -1736,7 +1834,18 @@ pub fn run(args: &Args) {
         for i in 0..n {
             let profile = focus.unwrap_or(i % 4);
             let mut g = Gen { rng: &mut rng, next_lv: 0 };
-            cases.push(g.program(profile));
+            let a = g.program(profile);
+            // one program in 16: the root is disposed and used again for a second program; now and then the case
+            // ends by using a handle of the first generation
+            if i % 16 == 5 {
+                let mut g = Gen { rng: &mut rng, next_lv: 0 };
+                let b = g.program((profile + 1 + i / 16) % 4);
+                let hs: Vec<bool> = a.iter().filter(|s| creates_handle(s)).map(|s| matches!(s, Stmt::Signal(_) | Stmt::Memo(_) | Stmt::Selector(..))).collect();
+                let tail = if !hs.is_empty() && rng.chance(1, 4) { let h = rng.below(hs.len()); Some(if hs[h] && rng.chance(1, 2) { Stmt::ReadU(h) } else { Stmt::Dispose(h) }) } else { None };
+                cases.push(with_reinit(a, b, tail));
+            } else {
+                cases.push(a);
+            }
         }
     }
     // D20 witness (always run): a handle that survives RootHandle::dispose must not alias a node of the next
